@@ -11,70 +11,7 @@ def run(ctx):
     mir = load()
     idx = index()
 
-    # ------------------------------------------------------------------ R06.1
-    r = ctx.rule("R06.1", "bookmark completeness: every field of StateMachineBookmark is filled from the live state in create_bookmark and restored in continue_from_bookmark; every state field common to Lexer and TagScanner is transferred or re-established", "E-MIR (type-driven)", floor=8)
-    bm = mir.adt("StateMachineBookmark")
-    fields = [f["name"] for f in bm["variants"][0]["fields"]]
-    cb = mir.fn("StateMachine::create_bookmark")
-    agg = [st for b in cb.blocks for st in b["stmts"] if st["k"] == "assign" and st["rv"]["k"] == "agg" and st["rv"]["name"].endswith("StateMachineBookmark")]
-    if len(agg) != 1:
-        raise EngineError("R06.1: StateMachineBookmark construction not found in create_bookmark")
-    src = dict(zip(agg[0]["rv"]["fields"], [cb.describe_operand(o) for o in agg[0]["rv"]["ops"]]))
-    want_src = {
-        "cdata_allowed": r"cdata_allowed\[?.*\(self\)|StateMachineConditions::cdata_allowed\(self\)",
-        "text_type": r"last_text_type\(self\)",
-        "last_start_tag_name_hash": r"last_start_tag_name_hash\(self\)",
-        "pos": r"^pos$",
-        "feedback_directive": r"^feedback_directive$",
-    }
-    cf = mir.fn("StateMachine::continue_from_bookmark")
-    restore = {}
-    for bi, t in cf.calls():
-        ck = callee_key(t)
-        for a in t["args"][1:]:
-            d = cf.describe_operand(a)
-            m = re.match(r"^bookmark\.([a-z_]+)$", d)
-            if m:
-                restore.setdefault(m.group(1), []).append(ck.split("::")[-1])
-    want_restore = {
-        "cdata_allowed": "set_cdata_allowed",
-        "text_type": "switch_text_type",
-        "last_start_tag_name_hash": "set_last_start_tag_name_hash",
-        "pos": "set_pos",
-        "feedback_directive": "adjust_to_bookmark",
-    }
-    for fld in fields:
-        key = "bookmark." + fld
-        r.inst(key, sample={"field": fld, "captured_from": src.get(fld), "restored_by": restore.get(fld)})
-        if fld not in src:
-            r.violate(key + "|capture", f"create_bookmark does not fill StateMachineBookmark.{fld}", cb.loc())
-        elif fld in want_src and not re.search(want_src[fld], src[fld]):
-            r.violate(key + "|capture", f"create_bookmark fills {fld} from `{src[fld]}` instead of the live state", cb.loc())
-        elif fld not in want_src:
-            r.violate(key + "|unknown", f"new bookmark field {fld}: no reference for how it is captured/restored (extend the rule table)", cb.loc())
-        if fld not in restore:
-            r.violate(key + "|restore", f"continue_from_bookmark ignores StateMachineBookmark.{fld}: this part of the state is lost when the parser switches between tag scanning and lexing", cf.loc())
-        elif fld in want_restore and want_restore[fld] not in restore[fld]:
-            r.violate(key + "|restore", f"continue_from_bookmark restores {fld} through {restore[fld]} instead of {want_restore[fld]}", cf.loc())
-    lx = {f["name"]: f["ty"] for f in mir.adt("Lexer")["variants"][0]["fields"]}
-    tg = {f["name"]: f["ty"] for f in mir.adt("TagScanner")["variants"][0]["fields"]}
-    EXC = {
-        "next_pos": "restored by set_pos(bookmark.pos)",
-        "is_last_input": "set by run_parsing_loop(last) on every entry",
-        "state": "re-derived from the text type by switch_text_type",
-        "closing_quote": "only live inside a quoted value; switches happen at tag boundaries",
-        "cdata_allowed": "bookmark.cdata_allowed",
-        "last_start_tag_name_hash": "bookmark.last_start_tag_name_hash",
-        "last_text_type": "bookmark.text_type",
-    }
-    for name in sorted(set(lx) & set(tg)):
-        r.inst("common." + name, sample={"field": name, "how": EXC.get(name)})
-        if name not in EXC:
-            r.violate("common." + name, f"state field `{name}` exists in both Lexer and TagScanner but is neither carried by the bookmark nor re-established at a switch", None)
-        elif EXC[name].startswith("bookmark."):
-            bf = EXC[name].split(".", 1)[1]
-            if bf not in fields or bf not in src or bf not in restore:
-                r.violate("common." + name, f"state field `{name}` exists in both Lexer and TagScanner but StateMachineBookmark no longer carries it ({bf} captured: {bf in src}, restored: {bf in restore}): the value the tag scanner established (e.g. CDATA permission after <svg>/<math>, text type, last start tag) is lost when the parser switches to the lexer for a matched tag", cf.loc())
+    rule_bookmark(ctx, mir)
 
     rule_sticky_scratch(ctx, mir, idx)
 
@@ -166,6 +103,14 @@ def run(ctx):
         if not st or not any("TextType::Data" in d for d in consts + [d for _, d in st]):
             r.violate(owner, f"{owner}::emit_tag does not fall back to TextType::Data after a tag", f.loc())
 
+    # ------------------------------------------------------------------ R06.6 / R06.7 (shared)
+    # a selector's matches must not depend on which other selectors forced an attribute bail-out: C04 R04.6
+    from .c04 import rule_pipeline
+    rule_pipeline(ctx, mir, rid="R06.6")
+    # the namespace of a tag must not depend on whether the lexer or the tag scanner asked for feedback: C16 R16.3
+    from .c16 import rule_ns_of_tag
+    rule_ns_of_tag(ctx, mir, rid="R06.7")
+
     ctx.not_decided += ["equality of event logs under handler sets H and H ∪ O as such (relation between two runs)"]
     return ("Rules on the hand-over between the tag scanner and the lexer: type-driven bookmark completeness, reset of sticky per-tag scratch on "
             "every continuing exit of finish_tag_name (CFG dominance), the stale-hint-flag protocol and once-per-tag tree-builder feedback.")
@@ -208,4 +153,72 @@ def rule_sticky_scratch(ctx, mir, idx, rid="R06.2"):
     r.inst("hint-arg")
     if len(eh) != 1 or f.describe_operand(eh[0][1]["args"][3]) != "is_in_end_tag":
         r.violate("hint-arg", "emit_tag_hint is not given the saved is_in_end_tag value", f.loc())
+
+
+
+def rule_bookmark(ctx, mir, rid="R06.1"):
+    # ------------------------------------------------------------------ R06.1
+    r = ctx.rule(rid, "bookmark completeness: every field of StateMachineBookmark is filled from the live state in create_bookmark and restored in continue_from_bookmark; every state field common to Lexer and TagScanner is transferred or re-established", "E-MIR (type-driven)", floor=8)
+    bm = mir.adt("StateMachineBookmark")
+    fields = [f["name"] for f in bm["variants"][0]["fields"]]
+    cb = mir.fn("StateMachine::create_bookmark")
+    agg = [st for b in cb.blocks for st in b["stmts"] if st["k"] == "assign" and st["rv"]["k"] == "agg" and st["rv"]["name"].endswith("StateMachineBookmark")]
+    if len(agg) != 1:
+        raise EngineError(rid + ": StateMachineBookmark construction not found in create_bookmark")
+    src = dict(zip(agg[0]["rv"]["fields"], [cb.describe_operand(o) for o in agg[0]["rv"]["ops"]]))
+    want_src = {
+        "cdata_allowed": r"cdata_allowed\[?.*\(self\)|StateMachineConditions::cdata_allowed\(self\)",
+        "text_type": r"last_text_type\(self\)",
+        "last_start_tag_name_hash": r"last_start_tag_name_hash\(self\)",
+        "pos": r"^pos$",
+        "feedback_directive": r"^feedback_directive$",
+    }
+    cf = mir.fn("StateMachine::continue_from_bookmark")
+    restore = {}
+    for bi, t in cf.calls():
+        ck = callee_key(t)
+        for a in t["args"][1:]:
+            d = cf.describe_operand(a)
+            m = re.match(r"^bookmark\.([a-z_]+)$", d)
+            if m:
+                restore.setdefault(m.group(1), []).append(ck.split("::")[-1])
+    want_restore = {
+        "cdata_allowed": "set_cdata_allowed",
+        "text_type": "switch_text_type",
+        "last_start_tag_name_hash": "set_last_start_tag_name_hash",
+        "pos": "set_pos",
+        "feedback_directive": "adjust_to_bookmark",
+    }
+    for fld in fields:
+        key = "bookmark." + fld
+        r.inst(key, sample={"field": fld, "captured_from": src.get(fld), "restored_by": restore.get(fld)})
+        if fld not in src:
+            r.violate(key + "|capture", f"create_bookmark does not fill StateMachineBookmark.{fld}", cb.loc())
+        elif fld in want_src and not re.search(want_src[fld], src[fld]):
+            r.violate(key + "|capture", f"create_bookmark fills {fld} from `{src[fld]}` instead of the live state", cb.loc())
+        elif fld not in want_src:
+            r.violate(key + "|unknown", f"new bookmark field {fld}: no reference for how it is captured/restored (extend the rule table)", cb.loc())
+        if fld not in restore:
+            r.violate(key + "|restore", f"continue_from_bookmark ignores StateMachineBookmark.{fld}: this part of the state is lost when the parser switches between tag scanning and lexing", cf.loc())
+        elif fld in want_restore and want_restore[fld] not in restore[fld]:
+            r.violate(key + "|restore", f"continue_from_bookmark restores {fld} through {restore[fld]} instead of {want_restore[fld]}", cf.loc())
+    lx = {f["name"]: f["ty"] for f in mir.adt("Lexer")["variants"][0]["fields"]}
+    tg = {f["name"]: f["ty"] for f in mir.adt("TagScanner")["variants"][0]["fields"]}
+    EXC = {
+        "next_pos": "restored by set_pos(bookmark.pos)",
+        "is_last_input": "set by run_parsing_loop(last) on every entry",
+        "state": "re-derived from the text type by switch_text_type",
+        "closing_quote": "only live inside a quoted value; switches happen at tag boundaries",
+        "cdata_allowed": "bookmark.cdata_allowed",
+        "last_start_tag_name_hash": "bookmark.last_start_tag_name_hash",
+        "last_text_type": "bookmark.text_type",
+    }
+    for name in sorted(set(lx) & set(tg)):
+        r.inst("common." + name, sample={"field": name, "how": EXC.get(name)})
+        if name not in EXC:
+            r.violate("common." + name, f"state field `{name}` exists in both Lexer and TagScanner but is neither carried by the bookmark nor re-established at a switch", None)
+        elif EXC[name].startswith("bookmark."):
+            bf = EXC[name].split(".", 1)[1]
+            if bf not in fields or bf not in src or bf not in restore:
+                r.violate("common." + name, f"state field `{name}` exists in both Lexer and TagScanner but StateMachineBookmark no longer carries it ({bf} captured: {bf in src}, restored: {bf in restore}): the value the tag scanner established (e.g. CDATA permission after <svg>/<math>, text type, last start tag) is lost when the parser switches to the lexer for a matched tag", cf.loc())
 
